@@ -287,4 +287,158 @@ Section Through.
         apply (MR.layout_index_unique (M.c_regs mc) k' k r' r (base + Z.of_nat (u - t0)) Hl Hk' Hk); lia.
     Qed.
   End Write.
+
+  (* ----- read ----- *)
+  Section Read.
+    Hypothesis Hre : x_we (tr t0) = false.
+    Hypothesis Hrd : M.r_rd r = true.
+
+    (* element.r_stb (the read side effect) is up in exactly one cycle of the transfer: the one in
+       which the register's first granule is presented *)
+    Lemma rstb_exact j : (j <= R + 1)%nat ->
+      nth_error (M.o_rstb (elem_out_at bc mc tr (t0 + j))) k = Some (j =? g_first)%nat.
+    Proof.
+      intros Hj. destruct g_bounds as (E0 & E1 & Hb). pose proof HR as HR.
+      rewrite elem_out_eq, (r_strobe_exact mc _ _ k r Hk). f_equal. rewrite Hrd. cbn [andb].
+      destruct (Nat.lt_ge_cases j R) as [Hlt|Hge].
+      - rewrite (mt_granule j Hlt). cbn [M.i_rstb M.i_addr]. rewrite Hre. cbn [negb]. rewrite andb_true_r.
+        destruct (Nat.eqb_spec j g_first) as [E|Hne].
+        + rewrite sel_granule by lia. destruct (Z.eqb_spec (base + Z.of_nat j) (M.r_start r)); [reflexivity|lia].
+        + destruct (Z.eqb_spec (base + Z.of_nat j) (M.r_start r)); [lia|]. apply andb_false_r.
+      - destruct (Nat.eqb_spec j g_first) as [E|_]; [lia|].
+        assert (Ej : (j = R \/ j = R + 1)%nat) by lia.
+        destruct Ej as [-> | ->]; [destruct mt_at_R as (Er & _)|rewrite Nat.add_assoc; destruct mt_at_R1 as (Er & _)];
+          rewrite Er; reflexivity.
+    Qed.
+
+    (* the CSR read data the bridge samples for granule i of the register is word (i - g_first) of the
+       value the register presented when its first granule was read *)
+    Lemma rdata_granule i : (g_first <= i < g_end)%nat ->
+      M.bus_rdata mc (snd (cstate_at bc mc tr (t0 + i + 1))) =
+      M.word (M.c_dw mc) (M.r_width r) (Z.of_nat i - Z.of_nat g_first)
+             (trunc (M.r_width r) (nth k (x_rvals (tr (t0 + g_first)%nat)) 0)).
+    Proof.
+      intros Hi. destruct g_bounds as (E0 & E1 & Hb). pose proof HR as HR.
+      set (T := (t0 + R + 2)%nat).
+      rewrite <- (st_at_mis bc mc tr T) by (unfold T; lia).
+      replace (t0 + i + 1)%nat with (S (t0 + i)) by lia.
+      change (bus_rdata mc (st_at mc (mis bc mc tr T) (S (t0 + i)))) with (rdata_at mc (mis bc mc tr T) (S (t0 + i))).
+      assert (Hfirst : mt (t0 + g_first)%nat =
+                {| M.i_addr := M.r_start r; M.i_rstb := true; M.i_wstb := false;
+                   M.i_wdata := B.lane bc (Z.of_nat g_first) (x_dat_w (tr t0));
+                   M.i_rvals := x_rvals (tr (t0 + g_first)%nat) |}).
+      { rewrite mt_granule by lia. rewrite sel_granule by lia. rewrite Hre. cbn [andb negb]. f_equal. lia. }
+      rewrite (read_atomic mc (mis bc mc tr T) (t0 + g_first) (t0 + i) k r (Z.of_nat i - Z.of_nat g_first)
+                 (mt (t0 + g_first)%nat) (mt (t0 + i)%nat) Hmwf Hk Hrd).
+      - unfold rval_at. rewrite nth_mis by (unfold T; lia). rewrite Hfirst. reflexivity.
+      - apply nth_mis. unfold T. lia.
+      - rewrite Hfirst. reflexivity.
+      - rewrite Hfirst. reflexivity.
+      - lia.
+      - intros u Hu (iu & r' & Hiu & Hin' & Hrd' & Hs & Ha).
+        replace u with (t0 + (u - t0))%nat in Hiu by lia.
+        rewrite nth_mis in Hiu by (unfold T; lia). injection Hiu as <-.
+        rewrite mt_granule in Ha by lia. cbn [M.i_addr] in Ha.
+        destruct Hmwf as (_ & Hl & _).
+        destruct (MR.layout_from_In _ _ _ Hl Hin') as (_ & Hne' & _).
+        assert (Er : r' = r).
+        { apply (MR.layout_In_unique (M.c_regs mc) r' r (base + Z.of_nat (u - t0)) Hl Hin' Hin); lia. }
+        subst r'. lia.
+      - apply nth_mis. unfold T. lia.
+      - rewrite mt_granule by lia. cbn [M.i_rstb]. rewrite sel_granule by lia. rewrite Hre. reflexivity.
+      - rewrite mt_granule by lia. cbn [M.i_addr]. lia.
+      - unfold reg_len. lia.
+    Qed.
+
+    (* ... and that is what the Wishbone initiator finds in the register's lanes of dat_r in the
+       acknowledge cycle *)
+    Lemma read_through i : (g_first <= i < g_end)%nat ->
+      B.lane bc (Z.of_nat i) (B.o_dat_r (wb_out_at bc mc tr (t0 + R + 1))) =
+      M.word (M.c_dw mc) (M.r_width r) (Z.of_nat i - Z.of_nat g_first)
+             (trunc (M.r_width r) (nth k (x_rvals (tr (t0 + g_first)%nat)) 0)).
+    Proof.
+      intros Hi. destruct g_bounds as (E0 & E1 & Hb).
+      rewrite wb_out_is_out_at. unfold B.out_at. rewrite BP.out_dat_r.
+      rewrite <- Nat.add_assoc.
+      rewrite (BP.xfer_lanes bc bt t0 Hwf Hidle' Hreq' (R + 1)) by lia.
+      rewrite btr_r_data, rdata_granule by exact Hi.
+      apply trunc_small. rewrite Hfit. apply word_range. apply Hmwf.
+    Qed.
+  End Read.
+
+  (* acknowledge timing of the composite's Wishbone side *)
+  Lemma ack_through :
+    (forall j, (j <= R)%nat -> B.o_ack (wb_out_at bc mc tr (t0 + j)) = false) /\
+    B.o_ack (wb_out_at bc mc tr (t0 + R + 1)) = true.
+  Proof.
+    destruct (BP.transfer bc bt t0 Hwf Hidle' Hreq') as (_ & _ & Hno & Hyes & _).
+    split; [intros j Hj|]; rewrite wb_out_is_out_at; auto.
+  Qed.
 End Through.
+
+(* ------------------------------------------------------------------------------------------ *)
+(* atomic_through_mux                                                                         *)
+(* ------------------------------------------------------------------------------------------ *)
+
+(* WRITE.  gf / ge: index (within the word) of the register's first granule / of the granule after its
+   last one.  The register's w_stb is up in cycle t0+ge and in no other cycle of [t0, t0+R+2]; ge <= R,
+   so that is strictly before the acknowledge cycle t0+R+1; in that cycle its w_data is the
+   concatenation of the dat_w lanes gf .. ge-1, clipped to the register's width. *)
+Theorem atomic_write_through_mux bc mc tr t0 k r :
+  BP.wf bc -> wf_cfg mc -> fits bc mc ->
+  BP.idle (fst (cstate_at bc mc tr t0)) -> BP.req_held (wb_trace tr) t0 (BP.nratio bc) ->
+  let x := tr t0 in
+  let R := BP.nratio bc in
+  word_in_range bc (x_adr x) ->
+  nth_error (M.c_regs mc) k = Some r -> reg_in_word bc (x_adr x) r -> reg_selected bc (x_adr x) (x_sel x) r ->
+  x_we x = true -> M.r_wr r = true ->
+  let gf := Z.to_nat (M.r_start r - x_adr x * B.ratio bc) in
+  let ge := Z.to_nat (M.r_stop r - x_adr x * B.ratio bc) in
+  (Z.of_nat gf = M.r_start r - x_adr x * B.ratio bc /\ Z.of_nat ge = M.r_stop r - x_adr x * B.ratio bc /\
+   (gf < ge <= R)%nat) /\
+  (forall j, (j <= R + 2)%nat ->
+     nth_error (M.o_wstb (elem_out_at bc mc tr (t0 + j))) k = Some (j =? ge)%nat) /\
+  nth_error (M.o_wdata (elem_out_at bc mc tr (t0 + ge))) k =
+    Some (assemble (M.c_dw mc) (M.r_width r) (fun j => B.lane bc (Z.of_nat gf + j) (x_dat_w x))
+                   (Z.to_nat (reg_len r))) /\
+  (forall j, (j <= R)%nat -> B.o_ack (wb_out_at bc mc tr (t0 + j)) = false) /\
+  B.o_ack (wb_out_at bc mc tr (t0 + R + 1)) = true.
+Proof.
+  intros Hwf Hmwf Hfit Hidle Hreq x R Hword Hk Hinw Hsel Hwe Hwr gf ge. subst x R gf ge.
+  split; [exact (g_bounds bc mc tr t0 Hwf Hmwf k r Hk Hinw)|].
+  split; [intros j Hj; exact (wstb_exact bc mc tr t0 Hwf Hmwf Hidle Hreq Hword k r Hk Hinw Hsel Hwe Hwr j Hj)|].
+  split; [exact (wdata_through bc mc tr t0 Hwf Hmwf Hfit Hidle Hreq Hword k r Hk Hinw Hsel Hwe Hwr)|].
+  exact (ack_through bc mc tr t0 Hwf Hidle Hreq).
+Qed.
+
+(* READ.  The register's r_stb (its read side effect) is up in cycle t0+gf and in no other cycle of
+   [t0, t0+R+1]; in the acknowledge cycle t0+R+1, lane i of dat_r, for every granule i of the
+   register, is word i-gf of the value the register presented in cycle t0+gf - whatever it (or any
+   other register) presents in any other cycle. *)
+Theorem atomic_read_through_mux bc mc tr t0 k r :
+  BP.wf bc -> wf_cfg mc -> fits bc mc ->
+  BP.idle (fst (cstate_at bc mc tr t0)) -> BP.req_held (wb_trace tr) t0 (BP.nratio bc) ->
+  let x := tr t0 in
+  let R := BP.nratio bc in
+  word_in_range bc (x_adr x) ->
+  nth_error (M.c_regs mc) k = Some r -> reg_in_word bc (x_adr x) r -> reg_selected bc (x_adr x) (x_sel x) r ->
+  x_we x = false -> M.r_rd r = true ->
+  let gf := Z.to_nat (M.r_start r - x_adr x * B.ratio bc) in
+  let ge := Z.to_nat (M.r_stop r - x_adr x * B.ratio bc) in
+  (Z.of_nat gf = M.r_start r - x_adr x * B.ratio bc /\ Z.of_nat ge = M.r_stop r - x_adr x * B.ratio bc /\
+   (gf < ge <= R)%nat) /\
+  (forall j, (j <= R + 1)%nat ->
+     nth_error (M.o_rstb (elem_out_at bc mc tr (t0 + j))) k = Some (j =? gf)%nat) /\
+  (forall i, (gf <= i < ge)%nat ->
+     B.lane bc (Z.of_nat i) (B.o_dat_r (wb_out_at bc mc tr (t0 + R + 1))) =
+     M.word (M.c_dw mc) (M.r_width r) (Z.of_nat i - Z.of_nat gf)
+            (trunc (M.r_width r) (nth k (x_rvals (tr (t0 + gf)%nat)) 0))) /\
+  (forall j, (j <= R)%nat -> B.o_ack (wb_out_at bc mc tr (t0 + j)) = false) /\
+  B.o_ack (wb_out_at bc mc tr (t0 + R + 1)) = true.
+Proof.
+  intros Hwf Hmwf Hfit Hidle Hreq x R Hword Hk Hinw Hsel Hre Hrd gf ge. subst x R gf ge.
+  split; [exact (g_bounds bc mc tr t0 Hwf Hmwf k r Hk Hinw)|].
+  split; [intros j Hj; exact (rstb_exact bc mc tr t0 Hwf Hmwf Hidle Hreq Hword k r Hk Hinw Hsel Hre Hrd j Hj)|].
+  split; [intros i Hi; exact (read_through bc mc tr t0 Hwf Hmwf Hfit Hidle Hreq Hword k r Hk Hinw Hsel Hre Hrd i Hi)|].
+  exact (ack_through bc mc tr t0 Hwf Hidle Hreq).
+Qed.
